@@ -228,6 +228,10 @@ class Canon:
             # (a, b, c)[1] is b
             if base[0] in ('tuple', 'list') and idx[0] == 'num' and isinstance(idx[1], int) and 0 <= idx[1] < len(base) - 1:
                 return base[1 + idx[1]]
+            # (a, b, c)[:2] is (a, b): a literal sequence cut by constant bounds
+            if base[0] in ('tuple', 'list') and idx[0] == 'slice' and all(b_ == ('none',) or (b_[0] == 'num' and isinstance(b_[1], int)) for b_ in idx[1:4]):
+                lo, hi, st = [None if b_ == ('none',) else b_[1] for b_ in idx[1:4]]
+                return (base[0],) + tuple(base[1:][slice(lo, hi, st)])
             if base[0] == 'attr' and base[2] == 'shape' and idx == ('num', 0):
                 return ('call', ('name', 'len'), (base[1],), ())          # x.shape[0] is len(x)
             return ('sub', base, idx)
